@@ -615,7 +615,7 @@ func allCalls(fn *ssa.Function, pred func(ssa.CallInstruction) bool) []ssa.CallI
 	var out []ssa.CallInstruction
 	for _, b := range fn.Blocks {
 		for _, ins := range b.Instrs {
-			if c, ok := ins.(ssa.CallInstruction); ok && pred(c) {
+			if c, ok := ins.(ssa.CallInstruction); ok && (pred == nil || pred(c)) {
 				out = append(out, c)
 			}
 		}
